@@ -138,6 +138,8 @@ class World(object):
         self.pool = []          # every dataset created or restored in this run that is still referenced
         self.cms = []           # open delay windows: (kind, cm)
         self.tmp = tmp
+        if tmp is not None:
+            os.makedirs(tmp, exist_ok=True)
         self.nsave = 0
         self.ndata = 0
         self.log = res.log
@@ -347,6 +349,8 @@ def mask_of(subset_or_data, state=None):
         return 'ok', np.array(m, dtype=bool)
     except IncompatibleAttribute:
         return 'incompatible', None
+    except (IndexError, ValueError, TypeError, AttributeError, AssertionError) as e:
+        return 'error:%s' % type(e).__name__, None
 
 
 def style_of(style):
